@@ -29,6 +29,31 @@
 #include "parallel/Worker.hpp"
 #include "sched.h"
 
+// Schedule perturbation from outside the library (free mode, BLOCKS_PERTURB=1): the thread that calls the
+// constructor (the producer) sleeps briefly whenever it frees a buffer, e.g. the old storage of a vector that
+// has just grown.  With correct locking nothing can be observed; a producer that touches shared containers
+// without the constructor's mutex gets its window widened from microseconds to a millisecond.
+#if !defined(__SANITIZE_THREAD__) && !defined(__SANITIZE_ADDRESS__)
+#include <atomic>
+#include <new>
+static std::atomic<int> g_perturb{0};   // remaining sleeps
+static pthread_t g_prod;
+// Only sized deallocations of 64 bytes or more are delayed (the storage a std::vector leaves behind when it
+// grows): delaying every free would slow the producer so much that no worker is ever busy when it matters.
+static inline void perturbed_free(void *p, std::size_t n) {
+  if (n >= 64 && g_perturb.load(std::memory_order_relaxed) > 0 && pthread_equal(pthread_self(), g_prod)) {
+    g_perturb.fetch_sub(1, std::memory_order_relaxed);
+    usleep(1500);
+  }
+  free(p);
+}
+void operator delete(void *p) noexcept { perturbed_free(p, 0); }
+void operator delete(void *p, std::size_t n) noexcept { perturbed_free(p, n); }
+void operator delete[](void *p) noexcept { perturbed_free(p, 0); }
+void operator delete[](void *p, std::size_t n) noexcept { perturbed_free(p, 0 * n); }
+#define HAVE_PERTURB 1
+#endif
+
 struct libcsd_verif_access {
   static void name_all(WorkerPool &p) {
     ds::name(p.shared_mutex.native_handle(), "shared");
@@ -98,7 +123,16 @@ static void build(int overhead, unsigned long cut, int threads) {
     p += s.size() + 1;
   }
   auto *it = new IteratorDictStringPlain(buf, total);
+#ifdef HAVE_PERTURB
+  if (!g_sched && getenv("BLOCKS_PERTURB")) {
+    g_prod = pthread_self();
+    g_perturb = 400;
+  }
+#endif
   StringDictionaryHASHRPDACBlocks *d = new StringDictionaryHASHRPDACBlocks(it, total, overhead, cut, threads);
+#ifdef HAVE_PERTURB
+  g_perturb = 0;
+#endif
   std::string e = "\"e\":\"Built\",\"threads\":" + std::to_string(threads) + ",\"nparts\":" + std::to_string(d->parts.size());
   bool complete = true;
   for (auto *q : d->parts)
